@@ -101,7 +101,7 @@ Proof. split; vm_compute; reflexivity. Qed.
 Lemma ex_cm_ok : cm_ok cm_ex.
 Proof.
   intros s k c. unfold cm_ex. destruct (beq s s_default && beq k (b "n"%string)); [| discriminate].
-  intros E. inversion E. unfold cmt_ok. repeat constructor; cbn; lia.
+  intros E. inversion E. unfold cmt_ok. cbn. intuition discriminate.
 Qed.
 
 Lemma ex_writable : writable bool (fun _ => True) d_ex.
